@@ -518,6 +518,21 @@ Definition reader_view (e : jevent) : jval :=
         ++ omit_if (is_nil (je_target e)) "target" (norm (jstr_map (je_target e)))
         ++ match je_data e with None => [] | Some d => [fld "data" (norm d)] end).
 
+(* every verbatim text inside a value is well-formed UTF-8 *)
+Fixpoint txt_utf8 (v : jval) : bool :=
+  match v with
+  | JTxt t => valid_utf8 t
+  | JArr l => forallb txt_utf8 l
+  | JObj m => forallb (fun kv => txt_utf8 (snd kv)) m
+  | _ => true
+  end.
+
+Definition event_utf8 (e : jevent) : bool :=
+  time_text_ok (je_logged_at e)
+  && forallb (fun kv => txt_utf8 (snd kv)) (je_meta_extra e)
+  && forallb (fun kv => txt_utf8 (snd kv)) (je_src_extra e)
+  && match je_data e with None => true | Some d => txt_utf8 d end.
+
 (* ---------- notions used in the statements about the encoding ---------- *)
 
 (* from 0x20 on, and never a raw  &  <  >  *)
